@@ -209,7 +209,7 @@ def showResp (ck : Clock) (verb : String) : Resp → String
   | .flag b => verb ++ (if b then " 1" else " 0")
   | .flags l => join verb (l.map fun p => p.1 ++ (if p.2 then "=1" else "=0"))
   | .inc v ok m => s!"inc {showVal v} {if ok then "1" else "0"} " ++ (match m with | none => "-" | some m => showMeta ck m)
-  | .ok => if verb == "closeidle" || verb == "restart" || verb == "wait" then "ok" else verb ++ " ok"
+  | .ok => if verb == "closeidle" || verb == "restart" || verb == "wait" || verb == "close" then "ok" else verb ++ " ok"
   | .size n => s!"size {n}"
   | .hang => "hang"
   | .skip => "skip"
@@ -301,7 +301,7 @@ def stepLine (d : DState) (line : String) : DState × String :=
       if d.s.dead then (d, "skip")
       else ({ d with ck := { d.ck with now := d.ck.now + (ms.toInt?.getD 0) * 1000000 } }, "ok")
     | [verb] =>
-      if verb == "closeidle" || verb == "restart" then
+      if verb == "closeidle" || verb == "restart" || verb == "close" then
         if d.s.dead then (d, "skip")
         else
           let before := Model.abs d.s
